@@ -23,13 +23,17 @@ LEAF_KEYED_ITEMS = {"live.items()": "liveness domain: keys are leaf place ids (S
                     "inner_scope.used_parent.items()": "uses recorded by visit_PlaceNode, one per leaf"}
 
 
-def run(ctx: Ctx) -> None:
+def run(ctx: Ctx, covered: set[str] = frozenset()) -> None:
+    """`covered`: functions whose decisions were interpreted on an aggregate place (c06_aggregate.py); their sites are skipped."""
     idx = ctx.idx
     n_sites = 0
     from .shared import error_builders, raised_diagnostic
     builders = error_builders(idx, LC, ERRORS)  # helpers that only construct the diagnostic: the decision is where they are raised
     for f in idx.iter_funcs((LC,)):
         if f.node.name in builders:
+            continue
+        if f.node.name in covered:
+            n_sites += sum(1 for n in ast.walk(f.node) if isinstance(n, ast.Raise) and raised_diagnostic(f.node, n, ERRORS, builders) is not None)
             continue
         parents: dict[ast.AST, ast.AST] = {}
         for n in ast.walk(f.node):
